@@ -58,10 +58,11 @@ var errnos = map[string]syscall.Errno{
 }
 
 type tamper struct {
-	at    int    // index (1-based) of the call on target/tmp to disturb; 0 = none
-	kind  string // "err", "kill", "short"
-	errno syscall.Errno
-	k     int // bytes a short write transfers
+	delayOpen time.Duration // hold every thread this long when it returns from openat (widens races between threads)
+	at        int           // index (1-based) of the call on target/tmp to disturb; 0 = none
+	kind      string        // "err", "kill", "short"
+	errno     syscall.Errno
+	k         int // bytes a short write transfers
 }
 
 type traceResult struct {
@@ -184,6 +185,7 @@ func trace(argv []string, dir string, env []string, target string, tp tamper) tr
 		creates string
 	}
 	pending := map[int]*pend{}
+	slowTid := map[int]bool{}
 	known := map[int]bool{mainPid: true}
 	shortObj := "" // object whose next write fails after an injected short write
 	nev := 0
@@ -220,6 +222,9 @@ func trace(argv []string, dir string, env []string, target string, tp tamper) tr
 			if si.Op == infoEntry {
 				nr, a := si.U[0], si.U[1:]
 				name, ok := sysNames[nr]
+				if ok && tp.delayOpen > 0 && name == "openat" {
+					slowTid[tid] = true
+				}
 				if !ok {
 					syscall.PtraceSyscall(tid, 0) // nolint:errcheck
 					continue
@@ -364,6 +369,10 @@ func trace(argv []string, dir string, env []string, target string, tp tamper) tr
 				continue
 			}
 			if si.Op == infoExit {
+				if tp.delayOpen > 0 && slowTid[tid] {
+					delete(slowTid, tid)
+					time.Sleep(tp.delayOpen)
+				}
 				if pd := pending[tid]; pd != nil {
 					delete(pending, tid)
 					rval := int64(si.U[0])
